@@ -661,6 +661,23 @@ def _run(ctx):
                     if op == 'pow':
                         continue
                     one_case(ctx, batch, op, fn, A, B, '%s:%s:%s' % (ka, kb, rel))
+    # small regimes of the bare-zero clause: a dimensionless operand is accepted by + - < <= > >= only when it IS zero, however
+    # small it is otherwise (denormal, below any absolute tolerance, an array with one tiny non-zero element among zeros)
+    tiny = [([5e-324], False), ([1e-300], False), ([1e-12], False), ([-3e-9], False), ([9.9e-9], False), ([1e-7], False),
+            ([0.0, 3e-9], True), ([-1e-12, 0.0], True), ([0.0, 0.0], True), ([-0.0], False)]
+    for (ka, ua, _) in KINDS:
+        if ua is None:
+            continue
+        for q_arr in (False, True):
+            Q = make(ka, ua, base['equal'], q_arr) + (q_arr,)
+            for mags, t_arr in tiny:
+                P = make('plain', None, mags, t_arr) + (t_arr,)
+                for op, fn in BINOPS:
+                    if op not in ('add', 'sub', 'lt', 'le', 'gt', 'ge', 'eq', 'ne'):
+                        continue      # products and quotients with denormals overflow: floating point, not this clause
+                    ctx.count('tiny_plain_operand')
+                    one_case(ctx, batch, op, fn, Q, P, '%s:tiny-plain' % ka)
+                    one_case(ctx, batch, op, fn, P, Q, 'tiny-plain:%s' % ka)
     # powers: quantity ** plain exponent (integer, negative, zero, fractional, near-integer), and the TypeError cases
     from pgradd.Units import eval_qty
     for (ka, ua, _) in KINDS:
